@@ -55,17 +55,31 @@ func swap_BANG(ctx context.Context, a ...MalType) (MalType, error) {
 		return nil, errors.New("swap! called with non-atom")
 	}
 	atm := a[0].(*Atom)
-	atm.Mutex.Lock()
-	defer atm.Mutex.Unlock()
-	args := []MalType{atm.Val}
 	f := a[1]
-	args = append(args, a[2:]...)
-	res, e := Apply(ctx, f, args)
-	if e != nil {
-		return nil, e
+	// The update function runs without the lock held (it may itself deref this
+	// atom or swap others); the result is installed only if no other update got
+	// in between, otherwise the function is applied again to the new value.
+	for {
+		atm.Mutex.RLock()
+		old, version := atm.Val, atm.version
+		atm.Mutex.RUnlock()
+		args := []MalType{old}
+		args = append(args, a[2:]...)
+		res, e := Apply(ctx, f, args)
+		if e != nil {
+			return nil, e
+		}
+		atm.Mutex.Lock()
+		if atm.version == version {
+			atm.Set(res)
+			atm.Mutex.Unlock()
+			return res, nil
+		}
+		atm.Mutex.Unlock()
+		if ctx != nil && ctx.Err() != nil {
+			return nil, errors.New("timeout while swapping atom")
+		}
 	}
-	atm.Set(res)
-	return res, nil
 }
 
 // Atoms
@@ -74,14 +88,18 @@ type Atom struct {
 	Val    MalType
 	Meta   MalType
 	Cursor *Position
+
+	version uint64 // incremented by every Set; guarded by Mutex
 }
 
 func (a *Atom) Type() string {
 	return "atom"
 }
 
+// Set installs a new value; the caller holds the write lock.
 func (a *Atom) Set(val MalType) MalType {
 	a.Val = val
+	a.version++
 	return a
 }
 
